@@ -18,14 +18,24 @@ from harness import common
 from harness.translate import gen as G
 
 PROPERTY = "C03"
-LEAN_MODULES = ["SigpyVerif.Props.C03"]
+LEAN_MODULES = ["SigpyVerif.Props.C03", "SigpyVerif.Props.C03Loop"]
 THEOREMS = ["SigpyVerif.C03." + t for t in [
-    "call_shape", "compose_build_iff", "compose_order", "composeApp_append", "add_build_iff", "add_apply",
+    "call_iff", "call_shape", "call_of_shape", "natGuard_iff_prefix", "natGuard_eq_iff",
+    "compose_build_iff", "compose_order", "composeApp_append", "add_build_iff", "add_apply",
     "scaleL_apply", "scaleR_apply", "neg_sub_def", "normAxis_spec", "stack_build_iff",
     "stack_indices_prefix_sums", "prefixFrom_getElem?", "stack_none_accepts_all", "slab_bounds", "bounds_short",
     "slabs_read_concat", "slabs_write_concat", "assembleAx_concat", "vstack_build_iff", "hstack_build_iff",
-    "vstack_uses_slab_bounds", "stackFold_spec", "selRange_concat", "rowWrites_concat",
-    "normAxis_eq", "gen_params_agree", "gen_apply_axis_agree",
+    "vstack_uses_slab_bounds", "stackFold_spec", "selRange_concat", "rowWrites_concat", "normAxis_eq",
+    # N-d geometry (outer x axis x inner decomposition of the row-major layout), read and write side
+    "flatten_rowOf", "rowOf_flatten", "rowOf_concatAx", "selLen_specBounds", "sliceAx_concat",
+    "stackParams_some_stacked", "stack_bounds", "slabs_concat", "assemble_concat",
+    # operator level
+    "vstack_block_col", "hstack_block_row", "sumResults_entry", "diag_block_diag", "vstack_block_col_call",
+    "diag_block_diag_call",
+    # the faithful translation of the loops and guards (Props/C03Loop.lean)
+    "inner_fold", "gen_loop_eq_combined", "gen_stack_build_iff", "gen_stack_indices_prefix_sums",
+    "gen_stack_none_accepts_all", "gen_stack_empty", "gen_guard_agree", "zipGuard_iff", "zipGuard_eq_iff",
+    "gen_apply_axis_agree",
 ]]
 
 
@@ -169,15 +179,22 @@ class ShapeError(Exception):
 
 # ---------------------------------------------------------------------------------------------
 # protocol
-def prog(n, leaf_dense):
+def prog(n, leaf_dense, exact=False):
     """reverse-polish program of a tree; leaf_dense(n) gives the dense matrix of a leaf (measured
-    on the real leaf operator)."""
+    on the real leaf operator).  exact=True: Identity / Reshape leaves are sent as `I:` / `R:` (the model's
+    transcription of their `_apply`, defined on inputs of ANY shape) — used by the off-rank stream."""
     t = n["t"]
     if t == "leaf":
+        if exact:
+            if n["k"] == "identity":
+                return ["I:%s" % L(n["ish"])]
+            if n["k"] == "reshape":
+                return ["R:%s:%s" % (L(n["osh"]), L(n["ish"]))]
+            raise ValueError("exact leaf " + n["k"])
         return ["L:%s:%s:%s" % (L(n["osh"]), L(n["ish"]), fmt_clist(leaf_dense(n)))]
     out = []
     for a in n["args"]:
-        out += prog(a, leaf_dense)
+        out += prog(a, leaf_dense, exact)
     k = len(n["args"])
     ax = lambda v: "none" if v is None else str(int(v))
     if t == "compose":
@@ -213,8 +230,8 @@ def leaf_dense(n):
     return _leaf_cache[key]
 
 
-def line(tree, xshape, x):
-    return "C03 eval xs=%s x=%s %s" % (L(xshape), fmt_clist(x), " ".join(prog(tree, leaf_dense)))
+def line(tree, xshape, x, exact=False):
+    return "C03 eval xs=%s x=%s %s" % (L(xshape), fmt_clist(x), " ".join(prog(tree, leaf_dense, exact)))
 
 
 def parse_reply(r):
@@ -421,6 +438,49 @@ def gen_input(rng, shape, cplx):
     if cplx:
         return np.array([complex(rng.randint(-4, 4), rng.randint(-4, 4)) for _ in range(n)]).reshape(shape)
     return np.array([float(rng.randint(-4, 4)) for _ in range(n)]).reshape(shape)
+
+
+# ---- off-rank inputs: chains of Identity / Reshape / scalars, inputs whose rank differs from ishape ----------
+def same_size_shape(rng, size):
+    """a random shape with `size` entries"""
+    f = [d for d in (1, 2, 3, 4, 6) if size % d == 0]
+    d = rng.choice(f)
+    return rng.choice([[size], [d, size // d], [size // d, d], [1, size], [size, 1], [d, 1, size // d]])
+
+
+def gen_chain(rng, osh, ish, depth):
+    """tree over Identity / Reshape leaves and Compose / a*A / A*a / -A: every `_apply` on the way is defined on
+    inputs of any shape (no stacking, no sum: numpy broadcasting of off-rank operands is not modelled)"""
+    if depth <= 0 or rng.random() < 0.2:
+        if osh == ish and rng.random() < 0.7:
+            return dict(t="leaf", k="identity", osh=list(osh), ish=list(ish))
+        return dict(t="leaf", k="reshape", osh=list(osh), ish=list(ish))
+    t = rng.choice(["compose", "compose", "ml", "mr", "neg"])
+    if t == "compose":
+        k = rng.choice([2, 2, 3])
+        mids = [same_size_shape(rng, prod(ish)) if rng.random() < 0.7 else list(rng.choice([osh, ish])) for _ in range(k - 1)]
+        sh = [osh] + mids + [ish]
+        return dict(t="compose", args=[gen_chain(rng, sh[i], sh[i + 1], depth - 1) for i in range(k)],
+                    ctor=(k > 2 or rng.random() < 0.3))
+    if t == "neg":
+        return dict(t="neg", args=[gen_chain(rng, osh, ish, depth - 1)])
+    return dict(t=t, args=[gen_chain(rng, osh, ish, depth - 1)], **rscalar(rng, True))
+
+
+def offrank_shape(rng, ish):
+    """an input shape of a rank different from len(ish): a proper non-empty prefix, an extension, or one
+    of these with an entry of the common prefix changed (which the guard must reject)"""
+    ish = list(ish)
+    if rng.random() < 0.5 and len(ish) >= 2:      # (0-d arrays are left out: numpy turns them into scalars on the way)
+        s = ish[:rng.randrange(1, len(ish))]
+    else:
+        s = ish + [rng.choice([1, 1, 2, 3]) for _ in range(rng.choice([1, 1, 2]))]
+    if rng.random() < 0.35:
+        c = min(len(s), len(ish))
+        if c:
+            i = rng.randrange(c)
+            s[i] = s[i] + rng.choice([1, 2]) if s[i] == 1 or rng.random() < 0.6 else s[i] - 1
+    return s
 
 
 # ---- malformed trees: one operand that does not fit ------------------------------------------
@@ -686,6 +746,39 @@ def check_misfit(n):
     return ("accepted", "constructed oshape=%s ishape=%s" % (list(A.oshape), list(A.ishape)), "an exception")
 
 
+def zip_guard(got, adv):
+    """the documented guard, written from the statement of `_check_ishape`: common prefix equal or wildcard"""
+    return all(b == -1 or a == b for a, b in zip(got, adv))
+
+
+def bad_input_verdict(tree, xshape, x):
+    """an input of the advertised RANK whose shape differs from ishape must be rejected at application
+    (key, observed, expected) or None"""
+    ish = expected_ishape(tree)
+    if ish is None or len(xshape) != len(ish) or list(xshape) == list(ish):
+        return None
+    try:
+        A = build(tree)
+    except Exception:
+        return None
+    try:
+        y = A(np.asarray(x, dtype=complex).reshape(xshape))
+    except Exception:
+        return None
+    return ("C03:%s:accepts-misfit-input" % CLS[tree["t"]],
+            "A(x) returned an array of shape %s for x.shape=%s" % (list(np.shape(y)), list(xshape)),
+            "an exception: ishape=%s" % ish)
+
+
+def offrank_verdict(tree, xshape, x):
+    """explanation of an off-rank disagreement by a failing input of the oracle: only same-rank misfits are in the
+    property's domain (other ranks exercise the exact guard; a disagreement there stays unexplained)"""
+    try:
+        return bad_input_verdict(tree, xshape, x)
+    except Exception:
+        return None
+
+
 def report(ctx, tree, x, origin):
     d = diagnose(tree, x)
     if d is None:
@@ -704,9 +797,16 @@ def correspond(ctx):
                 "line is evaluated by the Lean model and built with sigpy; compared exactly: oshape, ishape, output "
                 "or error class (build / apply). distinct = distinct protocol lines; non-trivial = tree has at least "
                 "one combinator. streams: well-formed trees (all axes in [-ndim,ndim) and None), misfit trees "
-                "(one operand does not fit), wrong-shaped inputs, _hstack_params/_vstack_params directly")
+                "(one operand does not fit), wrong-shaped inputs of the advertised rank, inputs of a DIFFERENT rank "
+                "(proper prefixes / extensions of ishape, with and without a changed entry in the common prefix) through "
+                "chains of Identity / Reshape / scalar operators whose _apply the model transcribes for every input shape "
+                "(exercises the exact zip guards of Linop.apply: accepted / rejected / returned array), "
+                "_hstack_params/_vstack_params directly (real function vs model vs the translator-generated loops, incl. "
+                "out-of-range axes), Linop._check_ishape/_check_oshape directly (incl. -1 wildcards) vs generated guards")
     ctx.assumptions += [
         "numpy arrays are dense row-major; basic slicing/assignment as modelled by sliceAx/rowWrite (validated by correspondence)",
+        "numpy broadcasting of operands whose rank differs from the advertised one (output[slc] = y, a + b) and 0-d arrays "
+        "(numpy turns them into scalars) are not modelled: off-rank inputs are only sent through Identity/Reshape/scalar chains",
         "leaf operators enter through their measured dense matrices (their own correctness is C01/C02/C09's business)",
         "inputs have the dtype of the result (complex128 when anything complex is involved): narrower input dtypes are "
         "searched separately (dtype stream)",
@@ -741,8 +841,23 @@ def correspond(ctx):
         cases.append((tree, xs, gen_input(rng, xs, True)))
     bad, keys, unexplained = _run_stream(ctx, "bad-input", cases)
     _oblige(ctx, "bad-input", bad, keys, unexplained)
+    # -- stream 3b: inputs of a DIFFERENT rank (the exact zip guards of Linop.apply): chains whose `_apply` is defined
+    #    on any shape, so that model and sigpy must agree on accepted / rejected and on the returned array
+    cases = []
+    for i in range(n // 2):
+        size = rng.choice([1, 2, 3, 4, 6, 6, 8, 12])
+        ish, osh = same_size_shape(rng, size), same_size_shape(rng, size)
+        tree = gen_chain(rng, osh, ish, rng.choice([0, 1, 1, 2, 3]))
+        xs = offrank_shape(rng, ish) if rng.random() < 0.85 else perturb(rng, ish)
+        cases.append((tree, xs, gen_input(rng, xs, True)))
+        ctx.count("offrank:%s" % ("shorter" if len(xs) < len(ish) else "longer" if len(xs) > len(ish) else "same-rank"))
+        ctx.count("offrank:guard-%s" % ("passes" if zip_guard(xs, ish) else "rejects"))
+    bad, keys, unexplained = _run_stream(ctx, "off-rank", cases, exact=True)
+    _oblige(ctx, "off-rank", bad, keys, unexplained)
     # -- stream 4: the params functions directly
     _params_stream(ctx, n)
+    # -- stream 5: the guard functions directly
+    _guard_stream(ctx, n)
     ctx.traces = ctx.evaluations
 
 
@@ -755,8 +870,8 @@ def _oblige(ctx, stream, bad, keys, unexplained):
     ctx.oblige("correspondence:C03." + stream, "correspondence", bad == 0, detail)
 
 
-def _run_stream(ctx, stream, cases, misfit=False):
-    lines = [line(t, xs, x) for t, xs, x in cases]
+def _run_stream(ctx, stream, cases, misfit=False, exact=False):
+    lines = [line(t, xs, x, exact) for t, xs, x in cases]
     replies = ctx.driver(lines)
     bad, keys, unexplained = 0, set(), 0
     for (tree, xs, x), ln, r in zip(cases, lines, replies):
@@ -773,7 +888,9 @@ def _run_stream(ctx, stream, cases, misfit=False):
             case = dict(kind="misfit" if misfit else "tree", tree=tree, xshape=list(xs), x=[[z.real, z.imag] for z in np.asarray(x, dtype=complex).ravel()])
             ctx.disagree(stream, case, impl, model)
             d = None
-            if not misfit:
+            if exact:
+                d = offrank_verdict(tree, xs, x)
+            elif not misfit:
                 d = diagnose(tree, [complex(z) for z in np.asarray(x).ravel()] if list(xs) == expected_ishape(tree) else None)
             elif misfit:
                 d = misfit_verdict(tree)
@@ -801,6 +918,61 @@ def real_params(fn, shapes, axis):
         return "err build"
 
 
+class _Shaped:
+    def __init__(self, shape):
+        self.shape = tuple(shape)
+
+
+class _Adv:
+    """stand-in for `self` of `_check_ishape/_check_oshape`: only the advertised shapes are read (a built Linop cannot
+    carry -1, the guard functions themselves treat it as a wildcard)"""
+
+    def __init__(self, adv):
+        self.ishape = list(adv)
+        self.oshape = list(adv)
+
+    def __repr__(self):
+        return "<adv %s>" % self.ishape
+
+
+def _guard_stream(ctx, n):
+    """`Linop._check_ishape/_check_oshape` themselves against the translated guards and the model's `zipGuard`:
+    all pairs of ranks 0..3, entries equal / different / -1 wildcard"""
+    from sigpy import linop
+    rng = ctx.rng
+    cases = []
+    for i in range(n):
+        adv = [rng.choice([1, 2, 3, 4]) for _ in range(rng.choice([0, 1, 2, 2, 3]))]
+        got = list(adv)
+        r = rng.random()
+        if r < 0.35:
+            got = got[:rng.randrange(0, len(got) + 1)]
+        elif r < 0.7:
+            got = got + [rng.choice([1, 2, 3]) for _ in range(rng.choice([1, 2]))]
+        if got and rng.random() < 0.4:
+            j = rng.randrange(len(got))
+            got[j] = got[j] + rng.choice([1, 2])
+        adv = [(-1 if rng.random() < 0.15 else a) for a in adv]
+        cases.append((got, adv))
+    replies = ctx.driver(["C03 guard got=%s adv=%s" % (L(g), L(a)) for g, a in cases])
+    bad = 0
+    for (got, adv), r in zip(cases, replies):
+        impl = []
+        for fn in (linop.Linop._check_ishape, linop.Linop._check_oshape):
+            try:
+                fn(_Adv(adv), _Shaped(got))
+                impl.append("1")
+            except Exception:
+                impl.append("0")
+        impl = "ok %s %s %s" % (impl[0], impl[1], "1" if zip_guard(got, adv) else "0")
+        ctx.case(("guard", tuple(got), tuple(adv)), nontrivial=len(got) != len(adv) or -1 in adv)
+        ctx.count("guard:%s" % ("wildcard" if -1 in adv[:len(got)] else "shorter" if len(got) < len(adv) else "longer" if len(got) > len(adv) else "same-rank"))
+        if impl != r:
+            bad += 1
+            ctx.disagree("guard", dict(kind="guard", got=got, adv=adv), impl, r)
+    ctx.oblige("correspondence:C03.guard", "correspondence", bad == 0, "%d disagreements" % bad)
+
+
 def _params_stream(ctx, n):
     from sigpy import linop
     rng = ctx.rng
@@ -816,6 +988,8 @@ def _params_stream(ctx, n):
             if axis is not None:
                 s[axis] = rng.randint(1, 4)
             shapes.append(s)
+        if rng.random() < 0.08:     # an axis outside [-ndim, ndim): `shapes[0][axis]` raises before the normalisation
+            axis = rng.choice([nd, nd + 1, -nd - 1, -nd - 2, 2 * nd])
         if rng.random() < 0.3:     # misfit: off-axis difference or rank difference
             j = rng.randrange(k)
             s = perturb(rng, shapes[j], keep_axis=None if axis is None else axis % nd)
@@ -823,19 +997,27 @@ def _params_stream(ctx, n):
         if axis is None and rng.random() < 0.5:
             shapes = [rshape(rng) for _ in range(k)]
         cases.append((shapes, axis))
-    lines = ["C03 params shapes=%s axis=%s" % ("|".join(L(s) for s in sh), "none" if ax is None else ax) for sh, ax in cases]
+    args = ["shapes=%s axis=%s" % ("|".join(L(s) for s in sh), "none" if ax is None else ax) for sh, ax in cases]
+    lines = ["C03 params " + a for a in args]
     replies = ctx.driver(lines)
-    bad, keys, unexplained = 0, set(), 0
-    for (shapes, axis), ln, r in zip(cases, lines, replies):
+    greplies = {"hstack": ctx.driver(["C03 gparams fn=h " + a for a in args]),
+                "vstack": ctx.driver(["C03 gparams fn=v " + a for a in args])}
+
+    def parse(r):
         if r.startswith("ok "):
             p = r.split(" ")
-            model = ("ok", ilist(p[1]), ilist(p[2]))
-        else:
-            model = r
+            return ("ok", ilist(p[1]), ilist(p[2]))
+        return r
+    bad, keys, unexplained = 0, set(), 0
+    for k, ((shapes, axis), ln, r) in enumerate(zip(cases, lines, replies)):
+        model = parse(r)
         for name, fn in (("hstack", linop._hstack_params), ("vstack", linop._vstack_params)):
             impl = real_params(fn, shapes, axis)
             ctx.case((ln, name), nontrivial=len(shapes) > 1)
-            ctx.count("params:%s" % ("none" if axis is None else "neg" if axis < 0 else "nonneg"))
+            ctx.count("params:%s" % ("none" if axis is None else "neg" if axis < 0 else "out-of-range" if axis >= len(shapes[0]) else "nonneg"))
+            gen = parse(greplies[name][k])
+            if impl == model and gen != impl:      # the translated loop disagrees with the function it was translated from
+                model = gen
             if impl != model:
                 bad += 1
                 ctx.disagree("params", dict(kind="params", fn=name, shapes=shapes, axis=axis), impl, model)
@@ -881,7 +1063,11 @@ def search(ctx, budget):
     # 1. the disagreeing cases of the correspondence first
     for d in ctx.disagreements[:300]:
         c = d["case"]
-        if c.get("kind") == "tree":
+        if c.get("kind") == "tree" and c["xshape"] != expected_ishape(c["tree"]):
+            r = bad_input_verdict(c["tree"], c["xshape"], [complex(*z) for z in c["x"]])
+            if r is not None:
+                ctx.fail(r[0], "an input whose shape does not fit was accepted", c, r[1], r[2], "disagreement")
+        elif c.get("kind") == "tree":
             report(ctx, c["tree"], [complex(*z) for z in c["x"]] if c["xshape"] == expected_ishape(c["tree"]) else None,
                    "disagreement")
         elif c.get("kind") == "misfit":
@@ -908,6 +1094,24 @@ def search(ctx, budget):
         if r is not None:
             ctx.fail(r[0], "operands that do not fit (%s) were combined" % why,
                      dict(kind="misfit", tree=tree), r[1], r[2], "search")
+    # 2b. inputs of the advertised rank but another shape must be rejected at application
+    for i in range(n // 2):
+        tree, cplx = gen_tree(rng, depth=rng.choice([0, 1, 1, 2]))
+        ish = expected(tree)[1]
+        xs = perturb(rng, ish, p_same=0.0)
+        if len(xs) != len(ish):
+            xs = [s + 1 for s in ish]
+        if rng.random() < 0.4:      # broadcastable against ishape: the likeliest shape to slip through
+            xs = list(ish)
+            xs[rng.randrange(len(xs))] = 1
+            if xs == list(ish):
+                xs = [s + 1 for s in ish]
+        x = gen_input(rng, xs, True)
+        ctx.case(("oracle-bad-input", json.dumps(tree, sort_keys=True), tuple(xs)), nontrivial=False)
+        r = bad_input_verdict(tree, xs, x.ravel())
+        if r is not None:
+            ctx.fail(r[0], "an input whose shape does not fit was accepted",
+                     dict(kind="tree", tree=tree, xshape=list(xs), x=[[z.real, z.imag] for z in x.ravel()]), r[1], r[2], "search")
     # 3. every axis, exhaustively, for small stacks of Identity/Multiply operands
     for t in axis_sweep(rng, int(6 * budget)):
         ctx.case(("oracle-axis", json.dumps(t, sort_keys=True)))
@@ -979,9 +1183,11 @@ def replay(path):
         if x is not None:
             x = [complex(*z) if isinstance(z, (list, tuple)) else complex(z) for z in x]
         if x is not None and c.get("xshape") is not None and c["xshape"] != expected_ishape(c["tree"]):
-            x = None
-        d = diagnose(c["tree"], x)
-        res = None if d is None else d[2:]
+            r = bad_input_verdict(c["tree"], c["xshape"], x)
+            res = None if r is None else r[1:]
+        else:
+            d = diagnose(c["tree"], x)
+            res = None if d is None else d[2:]
     ok = res is None
     if not ok:
         print("observed:", res[-2])
